@@ -221,6 +221,12 @@ def registry():
         j.alt = {"A": 6.0}
         j.points = lin(12.0, 88.0); j.t = 12.0; j.cost = "slow"
         _CACHE[j.name] = j
+        b2 = _CACHE["sedov.sedov.Sedov"]
+        v = Spec("sedov.sedov.Sedov@vacuum", b2.cls)
+        v.kwargs = {"geometry": 3, "omega": 2.4, "gamma": 1.4}
+        v.alt = {"geometry": 2, "omega": 1.7}
+        v.points = lin(0.35, 1.2); v.t = 1.0; v.cost = "slow"
+        _CACHE[v.name] = v
     return _CACHE
 
 
@@ -237,14 +243,14 @@ STATEFUL = {
     "noh.noh1.Noh": ("pure", "noh1", {"gamma": 1.4, "u0": -2.0, "geometry": 2}),
     "cog.cog8.Cog8": ("pure", "cog8", {"geometry": 2, "rho0": 2.5}),
     "kenamond.kenamond2.Kenamond2": ("pure", "kenamond2", {"R": 2.5, "D1": 2.5}),
-    "blake.blake.Blake": ("pure", "blake", {"pressure_scale": 2.0e6, "cavity_radius": 0.08}),
+    "blake.blake.Blake": ("pure", "blake", {"pressure_scale": 2.0e6, "cavity_radius": 0.08, "lame_mod": 30.0e9, "shear_mod": 20.0e9}),
     "rmtv.rmtv.Rmtv": ("glob", "rmtv.timmes", {"rf": 0.7}),
     "suolson.suolson.SuOlson": ("glob", "suolson.timmes", {"opac": 2.0, "trad_bc_ev": 500.0}),
     "riemann.ep_riemann.IGEOS_Solver": ("attr", "riemann", {"ul": 0.5, "gr": 5.0 / 3.0, "pr": 0.2}),
     "riemann2D_2section_steadystate.ep_riemann2D_2section_steadystate.IGEOS_Solver":
         ("attr", "riemann2D", {"top_state": [0.25, 0.5, 6.0, 0.0, 1.4]}),
     "sedov.sedov.Sedov": ("attr", "sedov", {"geometry": 2, "omega": 0.5, "gamma": 5.0 / 3.0}),
-    "sedov.SphericalSedov": ("attr", "sedov", {"omega": 2.4, "gamma": 1.4}),      # second parameter set: a vacuum-type solution
+    "sedov.sedov.Sedov@vacuum": ("attr", "sedov", {"geometry": 2, "omega": 1.7, "gamma": 1.4}),      # vacuum-type solutions
     "mader.timmes.Mader": ("attr", "mader", {"u_piston": 1.0e4}),
     "sdrz.sdrz.SteadyDetonationReactionZone": ("attr", "sdrz", {"D": 1.0, "rho_0": 2.0}),
     "radshocks.nED_radshocks.nED_Solver": ("eager", "radshocks", {"M0": 1.4}),
@@ -259,7 +265,7 @@ STATEFUL = {
 }
 # request-grid dependence that the documentation states (values may move within the
 # documented resolution when the *batch* changes; never when only history changes)
-GRID_DEPENDENT = {"sedov.sedov.Sedov", "sedov.SphericalSedov", "riemann.ep_riemann.GenEOS_Solver@JWL", "mader.timmes.Mader", "sdrz.sdrz.SteadyDetonationReactionZone",
+GRID_DEPENDENT = {"sedov.sedov.Sedov", "sedov.sedov.Sedov@vacuum", "riemann.ep_riemann.GenEOS_Solver@JWL", "mader.timmes.Mader", "sdrz.sdrz.SteadyDetonationReactionZone",
                   "riemann.ep_riemann.GenEOS_Solver",
                   "riemann2D_2section_steadystate.ep_riemann2D_2section_steadystate.IGEOS_Solver"}
 BBOX_TOL = {1: 1.0e-10, 2: 1.0e-3}
